@@ -205,6 +205,37 @@ def mk_image_nonzero(kind, dim, affine=False):
     return case
 
 
+def case_grid_lattice(ctx):
+    """a 2x3 grid (two collection axes) of lattice lines / planes under a lattice transformation: shape kept, every position is the image of its own element"""
+    from geometer import LineCollection, PlaneCollection, Transformation
+    for dim in (2, 3):
+        n = dim + 1
+        M = [list(r) for r in CONCRETE[n]]
+        T = Transformation(ctx.const(M, float))
+        rows = [[1, 2, 0, -1], [0, 1, 1, 2], [2, -1, 3, 1], [1, 1, -2, 0], [3, 0, 1, 1], [-1, 2, 2, 1]]
+        grid = [[rows[0][:n], rows[1][:n], rows[2][:n]], [rows[3][:n], rows[4][:n], rows[5][:n]]]
+        X = (LineCollection if dim == 2 else PlaneCollection)(ctx.const(grid, float))
+        Y = T * X
+        ctx.require(f"C06:grid{dim}d:shape-kept", tuple(Y.shape) == (2, 3, n))
+        ctx.require(f"C06:grid{dim}d:class-kept", type(Y) is type(X))
+        if tuple(Y.shape) != (2, 3, n):
+            continue
+        from fractions import Fraction
+        C = R.cofactor_matrix([[Fraction(v) for v in r] for r in M] if ctx.symbolic else M)
+        for i in range(2):
+            for j in range(3):
+                ref = R.matvec(C, [Fraction(v) for v in grid[i][j]] if ctx.symbolic else grid[i][j])
+                got = E(Y.array[i, j])
+                ctx.require(f"C06:grid{dim}d:position[{i},{j}]-is-image-of-its-element", R.proportional(ctx, got, ref))
+        Z = identity_like(dim) * X
+        ctx.require(f"C06:grid{dim}d:identity-keeps-shape", tuple(Z.shape) == (2, 3, n))
+
+
+def identity_like(dim):
+    from geometer import identity
+    return identity(dim)
+
+
 def mk_pow(dim, k, collection=False, affine=False):
     def case(ctx):
         from geometer import identity, Transformation, TransformationCollection
@@ -456,6 +487,8 @@ def all_cases(which):
             if dim == 3:
                 cs.append((f"group_{kind}_3d_general", mk_group(kind, 3, affine=False), dict(tiers=Tt)))
         cs.append((f"compose_{dim}d", case_compose_matrix(dim, affine=False), dict(tiers=Q)))
+        if dim == 2:
+            cs.append(("grid_lattice", case_grid_lattice, dict(tiers=Q)))
         for k in (-3, -2, -1, 0, 1, 2, 3):
             cs.append((f"pow{k}_{dim}d", mk_pow(dim, k, affine=(dim == 3 and k < 0)), dict(tiers=Q if abs(k) <= 2 else Tt)))
         for k in (-2, 0, 2):
